@@ -228,3 +228,34 @@ Lemma neg_paren_zero_refuted :
   clean e = false /\ chk e = ResolvedType_Float /\ snd (lower e) = IrType_Float /\
   rust_ty (fst (lower e)) = Some RI64.
 Proof. cbv zeta. repeat split; reflexivity. Qed.
+
+(* the helper the emitter picks matches the documented kinds: the `_i64` helpers exactly for
+   int//int and int%int, `py_div` always for `/`, integer `.pow` exactly when the documented
+   result is int, and an operand is cast to f64 exactly when it is int and the result float *)
+Lemma emit_shape_spec o l r : clean (ABin o l r) = true ->
+  let dl := doc_ty l in let dr := doc_ty r in
+  let d := doc_ty (ABin o l r) in
+  let isf := match d with DFloat => 1 | DInt => 0 end in
+  emit_shape o l r =
+  [ match o with ODiv => 2 | OMod => 30 + isf | OFloorDiv => 40 + isf | OPow => 50 + isf | _ => 1 end;
+    bcode (match d, dl with DFloat, DInt => true | _, _ => false end);
+    bcode (match d, dr with DFloat, DInt => true | _, _ => false end) ].
+Proof.
+  intros Hc. cbv zeta. cbn [clean] in Hc.
+  apply andb_prop in Hc. destruct Hc as [Hc Hp]. apply andb_prop in Hc. destruct Hc as [Hcl Hcr].
+  destruct (phases_agree l Hcl) as (L1 & _). destruct (phases_agree r Hcr) as (R1 & _).
+  unfold emit_shape. rewrite L1, R1. cbn [doc_ty]. rewrite <- extract_is_doc_literal.
+  destruct o; try (destruct (doc_ty l), (doc_ty r); reflexivity).
+  (* ** *)
+  apply andb_prop in Hp. destruct Hp as [Hp1 _]. apply negb_true_iff in Hp1. unfold bad_exp in Hp1.
+  destruct (doc_ty l), (doc_ty r); try reflexivity; cbn;
+    unfold pow_kind_ir, core_PowExponentKind_from_literal_info; cbn.
+  all: try (destruct (match fst (lower r) with IInt n => Some n | INeg (IInt n) => Some (- n) | _ => None end) as [n|];
+            [destruct (n >=? 0)|]; reflexivity).
+  fold (ir_lit (fst (lower r))).
+  destruct (extract_ast r) as [n|] eqn:Ea.
+  - rewrite (ast_lit_ir_lit r n Ea).
+    destruct (n >=? 0) eqn:E; [replace (0 <=? n) with true by lia|replace (0 <=? n) with false by lia]; reflexivity.
+  - destruct (ir_lit (fst (lower r))) as [n|]; [|reflexivity].
+    replace (n >=? 0) with false by lia. reflexivity.
+Qed.
